@@ -1,6 +1,7 @@
 """C08 `-- stylua: ignore` regions are reproduced verbatim - static necessary conditions."""
 import r_skip
 import r_directive
+import r_range
 
 EXPLANATION = (
     "Path enumeration / dominance over the MIR of every feature configuration: (a) in every single-node formatter "
@@ -20,4 +21,5 @@ ASSUMPTIONS = ["to_owned/clone of a full_moon node reproduces its tokens and tri
 def run(ctx):
     return [r_skip.rule_skip_edge(ctx, "C08", statuses=("Skip",)), r_skip.rule_post(ctx, "C08"),
             r_skip.rule_toggle(ctx, "C08"), r_skip.rule_sort_guard(ctx, "C08", must_block=("Skip",)),
-            r_directive.rule_directive(ctx, "C08"), r_skip.rule_node_type(ctx, "C08")]
+            r_directive.rule_directive(ctx, "C08"), r_skip.rule_node_type(ctx, "C08"),
+            r_range.rule_ignore_first(ctx, "C08")]
